@@ -254,7 +254,19 @@ def make_doc(rng, stream, size):
             rv = rng.choice(d) if d else None
             bad = dict(text="%s := 1" % rv, defs=[rv], uses=[]) if d else None
         if bad:
-            p.insert(rng.randint(0, len(p)), bad)
+            pos = rng.randint(0, len(p))
+            p.insert(pos, bad)
+            if rng.random() < 0.3:
+                # the error is raised inside the body of a user-defined function called from the fence (the function
+                # scope swaps the interpreter's symbol table and must restore it on the error path too)
+                if rng.random() < 0.5:
+                    fdef = "boom%s(x<f64>) = z<f64> :=\n  z := x + missing%s." % (n, n)
+                    call = "boom%s(1)" % n
+                else:
+                    fdef = "pick%s(x<u64>) => <u64>\n  ├ 0 => 1." % n
+                    call = "pick%s(5u64)" % n
+                p[pos] = dict(text="bad%s := %s" % (n, call), defs=[], uses=["!"], force=True)
+                p.insert(rng.randint(0, pos), dict(text=fdef, defs=[], uses=[], fndef=True))
     if rng.random() < 0.07:
         # main code that fails: the document stops there
         own = set(main_names)
